@@ -16,6 +16,7 @@ from heval import Evaluator, Policy, EvalError, sym, show, norm_path, local_poli
 from cfg import Cfg, callee_name, operand_place
 from mirutil import calls_to, where
 
+PER_CONFIG = True     # the rayon accessors exist only in the `parallel` configuration
 TA = 'tombstone_arena::TombstoneArena::<T>::'
 MUTATORS = ('remove', 'clear', 'retain', 'drain', 'take', 'extract_if', 'shrink_to', 'replace')
 
@@ -117,7 +118,20 @@ def par_filter(F, res, name, path):
         if 'inner' not in show(src):
             bad = 'filters %s, not the inner arena' % show(src)[:60]
         da = dead_atoms(w)
+        if dead_known_empty(w) and show(keep) == 'True':
+            continue
         ident = ('field', sym('ent'), '0')
+        if show(keep) not in ('True', 'False'):
+            # the predicate's value is an undecided term: it must be the negated membership test itself
+            kt = keep
+            neg = False
+            while isinstance(kt, tuple) and kt[0] == 'un' and kt[1] == 'Not':
+                kt, neg = kt[2], not neg
+            is_test = isinstance(kt, tuple) and kt[0] == 'call' and kt[1].endswith('HashSet::contains') and len(kt[2]) == 2 \
+                and show(kt[2][0]).endswith('dead') and kt[2][1] == ident
+            if not (is_test and neg):
+                bad = 'keeps an entry when %s' % show(keep)[:80]
+            continue
         if show(keep) == 'True' and (ident, False) not in da:
             bad = 'keeps an entry without `dead.contains(id)` being false'
         if show(keep) == 'False' and (ident, True) not in da:
@@ -128,6 +142,18 @@ def par_filter(F, res, name, path):
         res.bad('accessor/%s/liveness' % name, 'TombstoneArena %s %s' % (name, bad))
     else:
         res.ok('accessor/%s/liveness' % name, {'accessor': name, 'worlds': n, 'rule': 'parallel iterator filtered by !dead'})
+
+
+def dead_known_empty(w):
+    """this world knows that nothing has been deleted (`self.dead.is_empty()`): every entry is live"""
+    for k, v in w.assumptions:
+        if isinstance(k, tuple) and k and k[0] == 'atom':
+            t = show(k[1])
+            if v is True and re.match(r'^is_empty\((self\.)?dead\)$', t):
+                return True
+            if v is True and re.match(r'^\(len\((self\.)?dead\) Eq 0\)$', t):
+                return True
+    return False
 
 
 def accessor_worlds(F, res, accessors):
@@ -151,6 +177,8 @@ def accessor_worlds(F, res, accessors):
                 continue
             n += 1
             da = dead_atoms(w)
+            if dead_known_empty(w):
+                continue
             if name in ('get', 'get_mut', 'index', 'index_mut'):
                 if mentions(w.value, INNER) and (sym('id'), False) not in da:
                     bad = 'returns an item of the inner arena on a path where `dead.contains(id)` was not tested false'
